@@ -51,11 +51,27 @@ def _run_harness(lines, binary, timeout_per_case=10.0):
         if culprit is None or culprit not in ids:
             out.append("__harness__\tI\tHARNESSFAIL\trc=%s" % rc)
             break
-        out.append("%s\tI\t%s" % (culprit, "TIMEOUT" if timed_out else "ABORT"))
+        verdict = "TIMEOUT" if timed_out else "ABORT"
+        if timed_out:
+            # a shard on a loaded machine can exceed its budget without any case hanging: the case gets a process and a
+            # generous budget of its own before it is called a hang
+            try:
+                p1 = subprocess.run([binary], input=rest[ids.index(culprit)], capture_output=True, text=True, timeout=CONFIRM_TIMEOUT)
+                alone = [l for l in p1.stdout.splitlines() if "\tI\t" in l and not l.endswith("\tI\tBEGIN")]
+                if p1.returncode == 0 and alone:
+                    out.extend(alone)
+                    verdict = None
+                elif p1.returncode != 0:
+                    verdict = "ABORT"
+            except subprocess.TimeoutExpired:
+                pass
+        if verdict:
+            out.append("%s\tI\t%s" % (culprit, verdict))
         rest = rest[ids.index(culprit) + 1:]
     return out
 
 
+CONFIRM_TIMEOUT = 300.0   # seconds a single case may take, alone, before it counts as a hang
 ISOLATE = False      # set by a check whose cases must each run in a fresh process
 FEATURES = None      # set by a check that needs a harness built with a cargo feature
 
